@@ -48,7 +48,12 @@ func (obj Symbol) Readably(b []byte, p *Printer) []byte {
 	}
 	if needPipe {
 		b = append(b, '|')
-		b = append(b, p.caseName(string(obj))...)
+		for _, c := range []byte(p.caseName(string(obj))) {
+			if c == '|' || c == '\\' {
+				b = append(b, '\\')
+			}
+			b = append(b, c)
+		}
 		return append(b, '|')
 	}
 	return append(b, p.caseName(string(obj))...)
